@@ -447,7 +447,7 @@ def eval_shards_in(th: Path | None, workdir: Path, shards: list[str]):
         return list(ex.map(one, paths))
 
 
-def judge(items, workdir: Path, per_shard=30, th: Path | None = None):
+def judge(items, workdir: Path, per_shard=60, th: Path | None = None):
     shards, index = [], []
     for s in range(0, len(items), per_shard):
         chunk = list(range(s, min(len(items), s + per_shard)))
@@ -568,7 +568,7 @@ def run(tier: str, seed: int, replay: str | None = None) -> int:
         groups = [payload["group"]]
         root_cases = []
     else:
-        n_projects, n_special, n_inv, n_matrix = (8, 2, 6, 2) if tier == "quick" else (24, 7, 9, 20)
+        n_projects, n_special, n_inv, n_matrix = (8, 2, 5, 2) if tier == "quick" else (24, 7, 9, 20)
         groups = corpus_groups() + gen_groups(seed, n_projects * scale, n_special, n_inv) + gen_matrix(seed, n_matrix * scale)
         root_cases = gen_root_cases(seed, (150 if tier == "quick" else 1500) * scale)
     t0 = _t.time()
